@@ -691,7 +691,7 @@ def extract_constant_term(expr: Expression) -> float:
 
 def _extract_constant_impl(expr: Expression) -> float:
     """Recursive constant term extraction."""
-    from optyx.core.vectors import LinearCombination, VectorSum
+    from optyx.core.vectors import LinearCombination, VectorSum, VectorVariable
 
     if isinstance(expr, Constant):
         return float(expr.value)
@@ -699,9 +699,17 @@ def _extract_constant_impl(expr: Expression) -> float:
     if isinstance(expr, Variable):
         return 0.0
 
-    # Vector expressions have no constant term (purely linear)
-    if isinstance(expr, (LinearCombination, VectorSum)):
+    # Sums over plain variables have no constant term
+    if isinstance(expr, VectorSum):
         return 0.0
+    if isinstance(expr, LinearCombination):
+        if isinstance(expr.vector, VectorVariable):
+            return 0.0
+        # c @ (vector of expressions): weighted sum of the elements' constants
+        total = 0.0
+        for i, elem in enumerate(expr.vector._expressions):
+            total += float(expr.coefficients[i]) * _extract_constant_impl(elem)
+        return total
 
     if isinstance(expr, BinaryOp):
         if expr.op == "+":
